@@ -16,7 +16,7 @@ mod c16n {
     static mut START: usize = 0;
     fn abort_stub() -> ! {
         unsafe {
-            assert!(START >= LIMIT, "abort reached below the limit");
+            assert!(START > LIMIT, "abort reached although the count had not passed the limit (isize::MAX itself must still succeed)");
             kani::cover!(START == LIMIT + 1, "abort reached just above the limit");
         }
         kani::assume(false);
@@ -30,7 +30,7 @@ mod c16n {
         op();
         assert!(c <= LIMIT, "clone returned although the count had passed the limit");
         assert!(Arc::__verif_count_word(a).load(Ordering::Relaxed) == c.wrapping_add(1));
-        kani::cover!(c == LIMIT - 1, "largest count that must still succeed");
+        kani::cover!(c == LIMIT, "largest count that must still succeed");
     }
     #[kani::proof]
 #[kani::unwind(4)]
